@@ -192,7 +192,7 @@ def run(ctx):
     # (1) exhaustive design-level check of the statement's clauses on the abstract book (with and
     #     without the binding cap) + vacuity guards, (2) transition graphs for replay - side by side
     mc = [("full", tlc.subst_cfg("C09_MC.cfg", FULL)),
-          ("fullcap", tlc.subst_cfg("C09_MC.cfg", dict(FULL, Cap=2, MaxBatch=2, TTLs="{0, 2, 3, 8}"),
+          ("fullcap", tlc.subst_cfg("C09_MC.cfg", dict(FULL, Cap=2, MaxBatch=2, TTLs="{0, 2, 3, 8}", Seqs="{1}"),
                                     replace=[("Batches <- MCBatches", "Batches <- MCOBatches")]))]
     for inv in GUARDS:
         mc.append((inv, tlc.subst_cfg("C09_MC.cfg", insts[0][1], replace=[
